@@ -522,7 +522,7 @@ func (h *H) Exec(c M) (res M, rpcs []RPCRec) {
 		if s := str(c, "svc"); s != "" {
 			svc = l.Service(structs.NewServiceID(s, nil))
 			if svc == nil {
-				return M{"t": "refused"}, nil
+				return M{"t": "refused"}, []RPCRec{}
 			}
 		}
 		guard(&res, func() error { return l.AddCheck(mkChk(c, svc), str(c, "tok"), false) })
